@@ -4,7 +4,7 @@
 // algorithm that compares, copies, searches or orders elements runs on E* / E const* ranges for
 //   -DC13_ELEM=0 float   1 double   2 long double      value set: +0.0 -0.0 1 -1 denorm -denorm inf -inf 2.5 NaN
 //              3 signed char   4 short                 negative values, byte order (memcmp ordering is wrong)
-//              5 bool   6 char8_t   7 enum class : signed char
+//              5 bool   6 char8_t   7 enum class : signed char   8 struct {key, tag} compared by key only
 // Byte equality is not value equality (+0 == -0, NaN != NaN); byte order is not value order (negative / multi-byte).
 // Equality-based kernels keep NaN rows; ordering-based kernels (strict weak ordering required) keep NaN out.
 // Unstable sorts are digested insensitive to the relative position of +0 / -0 (equivalent elements).
@@ -31,6 +31,15 @@ namespace {
 using namespace c13;
 
 enum class E8 : signed char {};
+// trivially copyable, padding-free struct whose == and ordering look at the key only: two objects can be equal with
+// different bytes (like +0.0 / -0.0) and byte order is not value order - what a fast path keyed on
+// is_trivially_copyable / has_unique_object_representations (instead of the element type) gets wrong
+struct KT {
+    signed char key;
+    signed char tag;
+    friend constexpr bool operator==(KT const& l, KT const& r) { return l.key == r.key; }
+    friend constexpr auto operator<=>(KT const& l, KT const& r) { return l.key <=> r.key; }
+};
 
 #if C13_ELEM == 0
 using E                        = float;
@@ -53,9 +62,12 @@ constexpr char const* ename    = "bool";
 #elif C13_ELEM == 6
 using E                        = char8_t;
 constexpr char const* ename    = "char8_t";
-#else
+#elif C13_ELEM == 7
 using E                        = E8;
 constexpr char const* ename    = "enum:signed char";
+#else
+using E                        = KT;
+constexpr char const* ename    = "struct{key,tag}";
 #endif
 constexpr bool is_fp = std::is_floating_point_v<E>;
 
@@ -90,6 +102,10 @@ constexpr T val(int c)
         return tab[c];
     } else if constexpr (std::is_same_v<T, char8_t>) {
         constexpr char8_t tab[] = {0, 0, 1, 0xFF, 2, 0xFE, 0x7F, 0x80, u8'a', 0xE9};
+        return tab[c];
+    } else if constexpr (std::is_same_v<T, KT>) {
+        // v0 and v0' are EQUAL (same key) but have different bytes (tag)
+        constexpr KT tab[] = {{0, 1}, {0, 2}, {1, 0}, {-1, 0}, {2, 0}, {-2, 0}, {127, 0}, {-128, 0}, {5, 3}, {-5, 3}};
         return tab[c];
     } else {
         constexpr signed char tab[] = {0, 0, 1, -1, 2, -2, 127, -128, 5, -5};
@@ -181,6 +197,8 @@ struct ClsE {
     {
         if constexpr (std::is_floating_point_v<T>) {
             return fmt_fp(x);
+        } else if constexpr (std::is_same_v<T, KT>) {
+            return "{" + std::to_string((int)x.key) + "," + std::to_string((int)x.tag) + "}";
         } else {
             return std::to_string(static_cast<long long>(x));
         }
@@ -211,6 +229,8 @@ constexpr long long canon(T x, bool zi)
         } else {
             return std::bit_cast<std::int64_t>(static_cast<double>(x)); // table values are double-representable
         }
+    } else if constexpr (std::is_same_v<T, KT>) {
+        return zi ? static_cast<long long>(x.key) : static_cast<long long>(x.key) * 256 + x.tag;
     } else {
         return static_cast<long long>(x);
     }
